@@ -347,4 +347,9 @@ def _write_evidence(P, res, obligations, discharged, names, axioms, cases, disag
         "wall_s": res.timer.s(),
         "violations": len(res.violations),
     }
-    C.write_json(os.path.join(C.EVIDENCE, f"{P.ID}.json"), ev)
+    import re as _re
+    # evidence/<id>.json exists for the properties only; development runners (EBDEV, LEGDEV, C01kd, …) write theirs
+    # next to the work dirs
+    dst = C.EVIDENCE if _re.fullmatch(r"C\d\d", P.ID) else os.path.join(C.CACHE, "dev-evidence")
+    os.makedirs(dst, exist_ok=True)
+    C.write_json(os.path.join(dst, f"{P.ID}.json"), ev)
